@@ -62,7 +62,22 @@ RULE = (
     'path must read back the set value (non-trivial = some operation creates or '
     'replaces the root). Mechanism key of that class: the operation had to create / '
     'replace the root AND the view still holds the previous root object; every other '
-    'failure gets a key of its own')
+    'failure gets a key of its own. "mapfn" = a container tree viewed through a leaf '
+    'function, 60% with key_paths= 1..6 distinct existing leaf paths (Key paths or scalar '
+    'keys, random order), 40% without key_paths (all leaves); the function is total (1/6, '
+    'fresh wrapper per leaf object) or partial: it raises KeyError (2/6), IndexError '
+    '(2/6) or ValueError (1/6) for a random non-empty subset (at most half) of the viewed '
+    'leaf objects - a vocabulary lookup of an unknown token. Demanded: iter / keys() / '
+    'len equal those of the same view without a function (or raise the function\'s own '
+    'exception); view[k] returns f(leaf) or raises the exception f raised; values() / '
+    'items() / view[all keys] / apply() are aligned resp. equal the model when f is total '
+    'and raise the exception of f (possibly wrapped: it is in the cause chain) when f '
+    'raises for a viewed leaf (non-trivial = >= 2 viewed leaves and a partial function). '
+    'Mechanism key of that class: key_paths given AND f raises KeyError / IndexError for '
+    'a viewed leaf AND every symptom is the one the class explains (exactly the keys of '
+    'the raising leaves missing from the listing, values() / items() aligned with that '
+    'shorter listing, apply() equal to the tree with exactly the other key paths mapped); '
+    'every other symptom gets a key of its own (mapfn:<form>:<fn class>:<symptom>)')
 ASSUMPTIONS = [
     'roots of all copying-set cases are plain dict / list / tuple containers. A root '
     'that is itself a leaf (Python / numpy scalar incl. the falsy ones, None, str incl. '
@@ -120,6 +135,13 @@ ASSUMPTIONS = [
     'fresh path (key or Index(0) first), root replacement by SELF / (SELF,) / Key() with '
     'a container value, multi-key tuples of 2-3 unrelated paths; no SKIP, Literal, '
     'ndarray element, strict=True',
+    'views with a leaf function (mapfn cases): key paths as in the keypaths cases (existing, '
+    'pairwise distinct leaf paths); the leaf function is deterministic per leaf object '
+    '(equal singleton leaves such as None / small ints share their fate), raises only '
+    'KeyError, IndexError or ValueError, always a fresh exception object; view.get(k, '
+    'default) is NOT judged (Mapping.get may turn a KeyError into the default by its '
+    'contract); a listing (iter / keys() / len) that raises the function\'s own exception '
+    'is accepted; how often the function is called is not judged',
     'operations outside the domain above are only required not to mutate any original; '
     'whether they raise is not judged, but one that is accepted must read back the value '
     'under the path it was given',
@@ -139,7 +161,12 @@ REQUIRED = ['set_ops', 'model_checks', 'get_after_set_checks', 'frame_checks',
             'key_paths_none_value_checks', 'key_paths_none_mapped_checks',
             'inplace_set_ops', 'inplace_get_after_set_checks', 'inplace_empty_view_ops',
             'inplace_root_replace_ops', 'inplace_multikey_ops', 'inplace_below_root_ops',
-            'inplace_api_setitem_ops', 'inplace_api_set_ops', 'inplace_api_set_inplace_ops']
+            'inplace_api_setitem_ops', 'inplace_api_set_ops', 'inplace_api_set_inplace_ops',
+            'mapfn_checks', 'mapfn_total_fn_checks', 'mapfn_partial_fn_checks',
+            'mapfn_key_paths_partial_checks', 'mapfn_all_leaves_partial_checks',
+            'mapfn_raises_KeyError_checks', 'mapfn_raises_IndexError_checks',
+            'mapfn_raises_ValueError_checks', 'mapfn_key_paths_lookup_error_checks',
+            'mapfn_read_checks', 'mapfn_error_propagation_checks']
 EXHAUSTIVE = {'quick': False, 'thorough': False}
 
 KEEP_WITNESSES = 3
@@ -1379,6 +1406,240 @@ def run_keypaths(ctx, rseed, index, prof_name):
     ctx.sample({'case': case, 'tree': run.tree_repr[:300], 'ops': run.descs[:2]})
 
 
+# ---------------------------------------------------------------------------
+# Views with a leaf function (total / partial), with and without key_paths
+# ---------------------------------------------------------------------------
+
+MECH_KEYPATHS_FN_ERROR = 'key-paths-view-takes-leaf-function-error-for-absent-key'
+_MAPFN_EXC = {'KeyError': KeyError, 'IndexError': IndexError, 'ValueError': ValueError}
+
+
+def _chain_has(e, raised):
+  """True when one of the exception objects in `raised` is `e` or in its cause chain."""
+  seen = 0
+  while e is not None and seen < 8:
+    if any(e is r for r in raised):
+      return True
+    e, seen = (e.__cause__ or e.__context__), seen + 1
+  return False
+
+
+def run_mapfn(ctx, rseed, index, prof_name):
+  """TreeMapView(tree[, key_paths], map_fn=f), f total or raising on some leaves.
+
+  Input class: (key_paths given?, f total | f raises KeyError / IndexError /
+  ValueError for a non-empty subset of the viewed leaves). Oracle:
+   * the listing (iter / keys() / len) is the one of the same view WITHOUT a leaf
+     function (key_paths: the given existing paths in order), or it raises the very
+     exception the leaf function raised; it never depends on f otherwise;
+   * view[k] returns f(leaf), or raises the exception f raised for that leaf;
+   * values() / items() / view[all keys] / apply(): f total - aligned with the keys,
+     apply() equals the model; some viewed leaf makes f raise - the call raises that
+     exception (possibly wrapped, it is in the cause chain), never returns.
+  """
+  from ml_metrics._src.chainables import tree as tl
+  prof = PROFILES[prof_name]
+  rng = random.Random(rseed * 1000003 + index * 7919 + 521)
+  g = Gen(rng, prof)
+  tree0 = g.container(rng.choice([1, 1, 2, 2, 3]))
+  case = {'rseed': rseed, 'index': index, 'prof': prof_name, 'kind': 'mapfn'}
+  run = Run(ctx, case)
+  run.tree_repr = repr(tree0)
+  leaves = m.leaves(tree0)
+  if not leaves:
+    ctx.case(('mapfn', run.tree_repr), False)
+    return
+  with_kp = rng.random() < 0.6
+  if with_kp:
+    chosen = rng.sample(leaves, rng.randint(1, min(len(leaves), 6)))
+    keys = [lib_key_or_scalar(p, rng.random() < 0.5) for p, _ in chosen]
+  else:
+    # All leaves, in the order the view without a leaf function lists them.
+    chosen = list(leaves)
+    try:
+      twin = list(tl.TreeMapView(tree0))
+      bykey = {lib_key(p): (p, leaf) for p, leaf in leaves}
+      if len(twin) == len(bykey) and set(twin) == set(bykey):
+        chosen = [bykey[k] for k in twin]
+    except Exception:  # pylint: disable=broad-exception-caught
+      pass
+    keys = [lib_key(p) for p, _ in chosen]
+  wants = [leaf for _, leaf in chosen]
+  exc_name = rng.choice(['total', 'KeyError', 'KeyError', 'IndexError', 'IndexError',
+                         'ValueError'])
+  to_raise = set()
+  if exc_name != 'total':
+    to_raise = {id(v) for v in rng.sample(wants, rng.randint(1, max(1, len(wants) // 2)))}
+  use_as_view = rng.random() < 0.5
+  form = 'key_paths' if with_kp else 'all_leaves'
+  run.descs.append(f'{form}={tuple(keys)!r} map_fn:{exc_name} '
+                   f'raising={[m.short(w, 30) for w in wants if id(w) in to_raise]}')
+  originals = m.Originals()
+  originals.add('initial tree', tree0)
+  memo, raised = {}, []
+
+  def fn(x):
+    if id(x) in to_raise:
+      e = _MAPFN_EXC[exc_name](f'leaf function has no value for {m.short(x, 30)}')
+      raised.append(e)
+      raise e
+    if id(x) not in memo:
+      memo[id(x)] = (x, Tag(x))
+    return memo[id(x)][1]
+
+  def make(map_fn=None):
+    kp = tuple(keys) if with_kp else None
+    if use_as_view:
+      return tl.TreeMapView.as_view(tree0, key_paths=kp, map_fn=map_fn)
+    return tl.TreeMapView(tree0, kp, map_fn=map_fn)
+
+  bad = [id(w) in to_raise for w in wants]
+  any_bad = any(bad)
+  in_class = with_kp and any_bad and exc_name in ('KeyError', 'IndexError')
+  ctx.count('mapfn_checks')
+  ctx.count('mapfn_total_fn_checks' if not any_bad else 'mapfn_partial_fn_checks')
+  if any_bad:
+    ctx.count(f'mapfn_{form}_partial_checks')
+    ctx.count(f'mapfn_raises_{exc_name}_checks')
+  if in_class:
+    ctx.count('mapfn_key_paths_lookup_error_checks')
+  symptoms = []   # (name, detail, explained by the audited input class)
+  short_keys = [k for k, b in zip(keys, bad) if not b]
+  short_vals = [memo.setdefault(id(w), (w, Tag(w)))[1] for w, b in zip(wants, bad)
+                if not b]
+
+  def attempt(name, call):
+    """-> ('ok', value) | ('fn_error', None) | None after recording a foreign raise."""
+    try:
+      return 'ok', call()
+    except Exception as e:  # pylint: disable=broad-exception-caught
+      if _chain_has(e, raised):
+        return 'fn_error', None
+      symptoms.append((name + ':foreign_error', {'error': _err(e)}, False))
+      return None
+
+  view = make(fn)
+  # (1) listing does not depend on the leaf function.
+  ctx.count('iter_checks')
+  if with_kp:
+    want_keys = keys
+    same_key = lambda a, b: a is b
+  else:
+    want_keys = list(make())   # the twin: the same view without a leaf function
+    same_key = lambda a, b: type(a) is type(b) and a == b
+    if len(want_keys) != len(leaves):
+      symptoms.append(('plain_listing_count', {'got': len(want_keys),
+                                               'want': len(leaves)}, False))
+  for name, call in (('iter', lambda: list(view)), ('keys()', lambda: list(view.keys())),
+                     ('len', lambda: len(view))):
+    r = attempt(name, call)
+    if not r:
+      continue
+    if r[0] == 'fn_error':
+      ctx.count('mapfn_listing_raised_fn_error')
+      continue
+    got = r[1]
+    if name == 'len':
+      if got == len(want_keys):
+        continue
+      symptoms.append(('len:depends_on_leaf_function',
+                       {'got': got, 'want': len(want_keys)},
+                       in_class and got == len(short_keys)))
+      continue
+    if len(got) == len(want_keys) and all(same_key(a, b) for a, b in zip(got, want_keys)):
+      continue
+    dropped = (in_class and len(got) == len(short_keys)
+               and all(a is b for a, b in zip(got, short_keys)))
+    symptoms.append((name + (':key_of_raising_leaf_not_listed' if dropped
+                             else ':depends_on_leaf_function'),
+                     {'got': [repr(k) for k in got][:8],
+                      'want': [repr(k) for k in want_keys][:8]}, dropped))
+
+  # (2) single reads: f(leaf), or the error of f.
+  for k, w, b in zip(keys, wants, bad):
+    ctx.count('mapfn_read_checks')
+    r = attempt('read', lambda k=k: view[k])
+    if not r:
+      break
+    if b and r[0] == 'ok':
+      symptoms.append(('read:returned_despite_leaf_function_error',
+                       {'key': repr(k), 'got': m.short(r[1])}, False))
+      break
+    if not b and (r[0] != 'ok' or r[1] is not memo[id(w)][1]):
+      symptoms.append(('read:value', {'key': repr(k), 'got': m.short(r[1]),
+                                      'state': r[0]}, False))
+      break
+
+  # (3) values() / items() / multi-key read / apply().
+  if with_kp:
+    expected = short_expected = tree0
+    for (p, leaf), b in zip(chosen, bad):
+      if not b:
+        expected = short_expected = m.m_set(short_expected, p, memo[id(leaf)][1], [])
+  ctx.count('multiget_checks')
+  ctx.count('apply_checks')
+  for name, call in (('values()', lambda: list(view.values())),
+                     ('items()', lambda: list(view.items())),
+                     ('multi_key_read', lambda: view[tuple(keys)]),
+                     ('apply()', lambda: view.apply())):
+    r = attempt(name, call)
+    if not r:
+      continue
+    if any_bad:
+      ctx.count('mapfn_error_propagation_checks')
+      if r[0] == 'fn_error':
+        continue
+      got = r[1]
+      # Returned although f raised for a viewed leaf. Explained by the audited class
+      # when the result is exactly what the view of the remaining keys gives.
+      if name == 'values()':
+        expl = len(got) == len(short_vals) and all(a is b for a, b in zip(got, short_vals))
+      elif name == 'items()':
+        expl = (len(got) == len(short_keys)
+                and all(type(i) is tuple and len(i) == 2 and i[0] is k and i[1] is v
+                        for i, k, v in zip(got, short_keys, short_vals)))
+      elif name == 'apply()':
+        expl = with_kp and m.same(got, short_expected, set()) is None
+      else:
+        expl = False
+      symptoms.append((name + (':leaf_silently_unmapped' if name == 'apply()'
+                               else ':returned_despite_leaf_function_error'),
+                       {'got': m.short(got, 300)}, in_class and expl))
+      continue
+    if r[0] != 'ok':
+      symptoms.append((name + ':raised_unraised_fn_error', {}, False))
+      continue
+    got = r[1]
+    mvals = [memo[id(w)][1] for w in wants]
+    if name == 'apply()':
+      diff = (m.same(got, expected, set()) if with_kp
+              else _mapped_same(got, tree0, ()))
+      if diff:
+        symptoms.append(('apply():result', {'at': list(diff[0]), 'reason': diff[1],
+                                            'got': m.short(got, 300)}, False))
+    elif name == 'items()':
+      if not (len(got) == len(want_keys)
+              and all(type(i) is tuple and len(i) == 2 and same_key(i[0], k) and i[1] is v
+                      for i, k, v in zip(got, want_keys, mvals))):
+        symptoms.append(('items():misaligned', {'got': m.short(got, 300)}, False))
+    else:
+      if not (len(got) == len(mvals) and all(a is b for a, b in zip(got, mvals))
+              and (name != 'multi_key_read' or type(got) is tuple)):
+        symptoms.append((name + ':misaligned', {'got': m.short(got, 300)}, False))
+  ctx.count('original_snapshot_checks', len(originals))
+  if originals.changed():
+    symptoms.append(('original_mutated', {}, False))
+
+  if symptoms:
+    foreign = [s for s in symptoms if not s[2]]
+    mech = (f'mapfn:{form}:{exc_name}:{foreign[0][0]}' if foreign
+            else MECH_KEYPATHS_FN_ERROR)
+    run.violation('leaf_function_view', {'symptoms': {s[0]: s[1] for s in symptoms}}, mech)
+  nontrivial = len(chosen) >= 2 and any_bad
+  ctx.case(('mapfn', run.tree_repr, tuple(run.descs)), nontrivial)
+  if nontrivial and rng.random() < 0.005:
+    ctx.sample({'case': case, 'tree': run.tree_repr[:300], 'ops': run.descs[:2]})
+
 
 # ---------------------------------------------------------------------------
 # In-place sets: view[k] = v, view.set(k, v[, in_place=True]) - get-after-set only
@@ -1579,9 +1840,9 @@ def run_inplace(ctx, rseed, index, prof_name):
 # (kind, chunks, cases per chunk) of the widened input classes, per tier.
 EXTRA = {
     'quick': [('leafroot', 2, 600), ('seqleaf', 6, 200), ('keypaths', 6, 400),
-              ('inplace', 4, 1500)],
+              ('inplace', 4, 1500), ('mapfn', 4, 400)],
     'thorough': [('leafroot', 4, 5000), ('seqleaf', 16, 3000), ('keypaths', 16, 5000),
-                 ('inplace', 8, 20000)],
+                 ('inplace', 8, 20000), ('mapfn', 16, 4000)],
 }
 
 
@@ -1609,6 +1870,8 @@ def run_case(ctx, case):
     run_keypaths(ctx, case['rseed'], case['index'], case['prof'])
   elif kind == 'inplace':
     run_inplace(ctx, case['rseed'], case['index'], case['prof'])
+  elif kind == 'mapfn':
+    run_mapfn(ctx, case['rseed'], case['index'], case['prof'])
   else:
     run_one(ctx, case['rseed'], case['index'], case['prof'], kind)
 
